@@ -34,6 +34,9 @@ func dkgScenario(g *gen.G) *sim.Sim {
 		}
 	}
 	n := g.Int("n", 2, maxN)
+	if n < 4 && maxN >= 5 && g.Chance("atLeastFour", 1, 2) {
+		n = 4 + g.Int("nExtra", 0, maxN-4) // three honest participants and a Byzantine one need n >= 4: half of the small networks are enlarged
+	}
 	t := g.Int("t", 1, n-1)
 	nbyz := g.Int("byzantine", 0, min(t, n-1))
 	byz := g.Perm("byzSet", n)[:nbyz]
@@ -60,6 +63,33 @@ func dkgScenario(g *gen.G) *sim.Sim {
 		}
 		s.Template, s.Victim, s.Wildcard = true, hon[g.Pick("victim", len(hon))], g.Int("wildcard", 0, 3*n+8)
 		g.Class("template:oneVictimOneWildcard")
+	}
+	// accuse template: Byzantine participants raise groundless complaints against honest dealers at generated points of
+	// rounds 1 and 2 (what an honest dealer under accusation may be blamed for is the subject of C08)
+	accuseNum := 1
+	if s.Template && proto == sim.JointFeldman {
+		accuseNum = 2 // a Byzantine dealer that mistreats a victim and accuses an honest dealer right after its own answer
+	}
+	if nbyz > 0 && nbyz < n && (proto == sim.JointFeldman || !s.Nodes[dealer].Byz) && g.Chance("accuse", accuseNum, 4) {
+		s.Accuse = true
+		g.Class("template:accuseHonestDealer")
+	}
+	// accomplice template (needs two Byzantine participants): the Byzantine dealer and an accomplice exchange an answer
+	// and a complaint at generated points, around the dealer's treatment of the honest victim
+	if s.Template && nbyz >= 2 && g.Chance("accomplice", 1, 2) {
+		dl := dealer
+		if proto == sim.JointFeldman || !s.Nodes[dealer].Byz {
+			dl = byz[0]
+		}
+		if s.Nodes[dl].Byz && (proto == sim.JointFeldman || dl == dealer) {
+			for _, b := range byz {
+				if b != dl {
+					s.AccDealer, s.Accomplice = dl, b
+					g.Class("template:accomplice")
+					break
+				}
+			}
+		}
 	}
 	s.Run()
 	g.Note("%v n=%d t=%d dealer=%d byzantine=%v", proto, n, t, dealer, byz)
